@@ -12,6 +12,9 @@ import (
 	"time"
 )
 
+// ProcessStart is used for wall-clock accounting (includes loading).
+var ProcessStart = time.Now()
+
 // Status of one obligation instance.
 type Status string
 
@@ -204,7 +207,7 @@ func (r *Report) Finish() int {
 		}
 	}
 	bad := nViol + nUndec
-	wall := time.Since(r.Start).Seconds()
+	wall := time.Since(ProcessStart).Seconds()
 	// evidence
 	samples := make([]Ob, 0, 40)
 	for _, o := range r.Obs {
@@ -255,6 +258,9 @@ func (r *Report) Finish() int {
 		"violations":  bad,
 	}
 	evDir := filepath.Join(vd, "evidence")
+	if d := os.Getenv("VERIF_EVIDENCE_DIR"); d != "" {
+		evDir = d // scratch runs against mutants must not overwrite the evidence of the real tree
+	}
 	_ = os.MkdirAll(evDir, 0o755)
 	if err := writeJSON(filepath.Join(evDir, r.Property+".json"), ev); err != nil {
 		fmt.Fprintf(os.Stderr, "cannot write evidence: %v\n", err)
